@@ -3,6 +3,10 @@ package imagemeta_test
 // Triage evidence (not a check) for the value-type repairs (C16/C17). Place in the module root.
 
 import (
+	"bytes"
+	"encoding/binary"
+
+	"github.com/evanoberholster/imagemeta"
 	"testing"
 
 	"github.com/evanoberholster/imagemeta/imagehash"
@@ -45,4 +49,14 @@ func TestConfirmPHashDecodeShort(t *testing.T) {
 	noPanic(t, "PHash64.Decode(short)", func() { var h imagehash.PHash64; h.Decode([]byte{1, 2, 3}) })
 	noPanic(t, "PHash256.Decode(short)", func() { var h imagehash.PHash256; h.Decode(make([]byte, 20)) })
 	noPanic(t, "Aperture.ParseString(1/0)", func() { var a meta.Aperture; a.ParseString([]byte("1/0")) })
+}
+
+// C03 (recorded in known_findings.json, not repaired — this test FAILS on the current tree by design): the make is reported through a name table that normalises three spellings.
+func TestRecordedMakeNormalised(t *testing.T) {
+	for _, mk := range []string{"SONY", "HUAWEI", "NIKON CORPORATION", "Canon"} {
+		e, err := imagemeta.DecodeTiff(bytes.NewReader(tiffMake(binary.LittleEndian, mk)))
+		if err != nil || e.Make != mk {
+			t.Errorf("Make %q decoded as %q (err %v)", mk, e.Make, err)
+		}
+	}
 }
